@@ -934,3 +934,90 @@ Proof. exact TrViOpModel.del_line_model. Qed.
 Print Assumptions C08_tr_delete_line_model.
 Local Open Scope N_scope.
 Local Open Scope Z_scope.
+
+(* ---------------------------------------------------------------------------------------------------------------------- *)
+(* vi_indents and vc_join on the C TEXT (coq/TrViOp2.v; same oracle vocabulary as above).
+   * vi_indents(ln): a fresh block with the leading blanks and tabs of ln (TrViOp2.indents_b: nothing for NULL or when xai = 0).
+   * vc_join (J): cnt = vi_arg1 <= 1 ? 2 : vi_arg1; 0 is returned and nothing is called when row xrow or row xrow + cnt - 1 does not exist;
+     else the text handed to lbuf_edit is TrViOp2.join_res: the rows xrow .. xrow + cnt - 1 one after the other, each up to its newline, every row
+     but the first without its leading blanks and with join_spaces' spaces in front (TrViOpPure.join_spaces_b = ViDefs.join_spaces:
+     C08_tr_join_spaces_model), then "\n"; the range is (xrow, xrow + cnt); xoff = the number of characters in front of the last row joined;
+     the builder is freed; vi_drawfix(xrow, xrow + cnt - 1, 1, 0); 16 is returned. *)
+From NV Require TrViOp2.
+Local Close Scope Z_scope.
+Local Close Scope N_scope.
+Theorem C08_tr_vi_indents : forall (ext : nat -> list CLite.val -> CLite.mem -> CLite.res (CLite.val * CLite.mem)) (fuel : nat),
+       TrViOp.oracles ext ->
+       forall (D : nat) (m : CLite.mem) (v : CLite.val) (os : option bytes) (xai : Z),
+       TrViOp.sarg m v os ->
+       CLiteProps.cell_at m GenCFuncs.G_xai xai ->
+       CLiteTac.int_ok xai ->
+       match os with
+       | Some s => length s
+       | None => 0
+       end < fuel ->
+       CLiteExt.callx ext GenCFuncs.cprog fuel (S (S D)) GenCFuncs.F_vi_indents (v :: nil) m = CLite.Ok (CLite.VPtr (length m) 0, m ++ CLite.cstr_block (CLiteProps.zb (TrViOp2.indents_b xai os)) :: nil).
+Proof. exact TrViOp2.tr_vi_indents. Qed.
+Print Assumptions C08_tr_vi_indents.
+
+Theorem C08_tr_vc_join_fail : forall (ext : nat -> list CLite.val -> CLite.mem -> CLite.res (CLite.val * CLite.mem)) (fuel : nat),
+       (nat -> Prop) ->
+       forall (D : nat) (m : CLite.mem) (lb bln : nat) (lbs : list nat) (lines : list bytes) (a1 xr : Z),
+       TrViOp.ed_at m lb bln lbs lines ->
+       CLiteProps.cell_at m GenCFuncs.G_vi_arg1 a1 ->
+       CLiteProps.cell_at m GenCFuncs.G_xrow xr ->
+       CLiteTac.int_ok a1 ->
+       CLiteTac.int_ok xr ->
+       CLiteTac.int_ok (xr + TrViOp2.join_cnt a1) ->
+       TrMot.rowidx lines xr = None \/ TrMot.rowidx lines (xr + TrViOp2.join_cnt a1 - 1) = None ->
+       CLiteExt.callx ext GenCFuncs.cprog fuel (S (S (S (S D)))) GenCFuncs.F_vc_join nil m = CLite.Ok (CLite.VInt 0, m).
+Proof. exact TrViOp2.tr_vc_join_fail. Qed.
+Print Assumptions C08_tr_vc_join_fail.
+
+Theorem C08_tr_vc_join : forall (ext : nat -> list CLite.val -> CLite.mem -> CLite.res (CLite.val * CLite.mem)) (fuel : nat),
+       TrViOp.oracles ext ->
+       forall (lown : nat -> Prop) (D : nat) (m : CLite.mem) (lb bln : nat) (lbs : list nat) (lines : list bytes) (a1 xr xo : Z) 
+         (u' : CLite.val) (m6 : CLite.mem) (ud : CLite.val) (m8 : CLite.mem),
+       TrViOp.ed_at m lb bln lbs lines ->
+       CLiteProps.cell_at m GenCFuncs.G_vi_arg1 a1 ->
+       CLiteProps.cell_at m GenCFuncs.G_xrow xr ->
+       CLiteProps.cell_at m GenCFuncs.G_xoff xo ->
+       CLiteTac.int_ok a1 ->
+       let cnt := TrViOp2.join_cnt a1 in
+       (0 <= xr)%Z ->
+       (xr + cnt <= Z.of_nat (length lines))%Z ->
+       (2 * xr + cnt <= 2147483647)%Z ->
+       Forall TrViOp2.has_nl (TrViOp2.join_rows_of lines xr cnt) ->
+       let R := TrViOp2.join_res lines xr cnt in
+       (Z.of_nat (length (fst R)) + 2 <= 2147483647)%Z ->
+       length (fst R) < fuel ->
+       Z.to_nat cnt + TrMot.maxlen lines + 2 < fuel ->
+       (forall b : nat, lown b -> b < length m) ->
+       ~ lown GenCFuncs.G_xrow ->
+       ~ lown GenCFuncs.G_xoff ->
+       ext GenCFuncs.X_lbuf_edit (CLite.VPtr lb 0 :: CLite.VPtr (length m) 0 :: CLite.VInt xr :: CLite.VInt (xr + cnt) :: nil) (TrViOp2.join_mem9 m lines xr cnt) = CLite.Ok (u', m6) ->
+       TrViOp.eframe lown (TrViOp2.join_mem9 m lines xr cnt) m6 ->
+       ext GenCFuncs.X_vi_drawfix (CLite.VInt xr :: CLite.VInt (xr + cnt - 1) :: CLite.VInt 1 :: CLite.VInt 0 :: nil)
+         (CLiteProps.upd (CLiteProps.upd m6 GenCFuncs.G_xoff (CLite.VInt (snd R) :: nil)) (length m) nil) = CLite.Ok (ud, m8) ->
+       CLiteExt.callx ext GenCFuncs.cprog fuel (S (S (S (S D)))) GenCFuncs.F_vc_join nil m = CLite.Ok (CLite.VInt 16, m8).
+Proof. exact TrViOp2.tr_vc_join. Qed.
+Print Assumptions C08_tr_vc_join.
+
+Example C08_tr_join_run : TrViOp2.join_show (CLiteExt.callx TrViOp.ideal_ext GenCFuncs.cprog 60 8 GenCFuncs.F_vc_join nil (TrViOp2.join_mem 3 0)) =
+       Some
+         (CLite.VInt 16, Some (CLite.VInt 8 :: nil),
+          map CLite.VInt (2%Z :: 0%Z :: 3%Z :: 97%Z :: 98%Z :: 46%Z :: 32%Z :: 32%Z :: 99%Z :: 100%Z :: 32%Z :: 41%Z :: 101%Z :: 10%Z :: nil)
+          :: map CLite.VInt (3%Z :: 0%Z :: 2%Z :: 1%Z :: 0%Z :: nil) :: nil) /\
+       TrViOp2.join_show (CLiteExt.callx TrViOp.ideal_ext GenCFuncs.cprog 60 8 GenCFuncs.F_vc_join nil (TrViOp2.join_mem 0 1)) =
+       Some
+         (CLite.VInt 16, Some (CLite.VInt 5 :: nil),
+          map CLite.VInt (2%Z :: 1%Z :: 3%Z :: 32%Z :: 32%Z :: 99%Z :: 100%Z :: 32%Z :: 41%Z :: 101%Z :: 10%Z :: nil)
+          :: map CLite.VInt (3%Z :: 1%Z :: 2%Z :: 1%Z :: 0%Z :: nil) :: nil) /\
+       TrViOp2.join_show (CLiteExt.callx TrViOp.ideal_ext GenCFuncs.cprog 60 8 GenCFuncs.F_vc_join nil (TrViOp2.join_mem 5 0)) = Some (CLite.VInt 0, Some (CLite.VInt 0 :: nil), nil) /\
+       match CLiteExt.callx TrViOp.ideal_ext GenCFuncs.cprog 60 8 GenCFuncs.F_vi_indents (CLite.VPtr (length GenCFuncs.cglobals + 3) 0 :: nil) (TrViOp2.join_mem 0 0) with
+       | CLite.Ok (v, m) => Some (TrViOp.rd0 m v)
+       | CLite.Err _ => None
+       end = Some (32%N :: 32%N :: nil).
+Proof. exact TrViOp2.join_run_examples. Qed.
+Local Open Scope N_scope.
+Local Open Scope Z_scope.
